@@ -7,6 +7,9 @@
   (C18 proves the ring refines it).  Messages carry a ghost id (`gid`, the number of
   the send operation that offered it) which never reaches the outputs; the theorems
   use it to state conservation without assuming distinct payloads.
+
+  Layout: one function per event (`evSend`, `evPipeAdd`, ...), each a single record
+  update per C branch, so that the proofs (Proofs/Push.lean) can treat them one by one.
 -/
 import NngModel.Proto.Base
 import NngModel.Generated.Consts
@@ -43,49 +46,61 @@ structure State where
   writable : Bool := false
   nsend : Nat := 0                -- ghost: number of send operations so far
   -- ghost history
+  offered : List GMsg := []       -- every message a send operation offered, in order (gid = index)
   accepted : List GMsg := []      -- sends completed with 0, in completion order
   wire : List (Nat × GMsg) := []  -- (pipe, msg) handed to the transport, in order
   dropped : List GMsg := []       -- discarded whole by a send-buffer shrink or at close
   returned : List GMsg := []      -- given back to the caller with a failed send
   lostOnPipe : List GMsg := []    -- in flight on a pipe whose send failed / that closed
+  slack : Bool := false           -- a send-buffer resize left room while senders were parked
 deriving Repr, Inhabited
 
 def peerPull : Nat := Nng.Generated.protoPull
 
-def wqFull (s : State) : Bool := s.wq.length ≥ s.wqCap
+/-- nni_lmq_full -/
+def full (wq : List GMsg) (cap : Nat) : Bool := wq.length ≥ cap
 
-def getPipe (s : State) (p : Nat) : Option Pipe := s.pipes.find? (·.id == p)
+def wqFull (s : State) : Bool := full s.wq s.wqCap
 
-def setPipe (s : State) (pp : Pipe) : State :=
-  { s with pipes := s.pipes.map fun q => if q.id == pp.id then pp else q }
+def getP (ps : List Pipe) (p : Nat) : Option Pipe := ps.find? (·.id == p)
+
+def setP (ps : List Pipe) (pp : Pipe) : List Pipe :=
+  ps.map fun q => if q.id == pp.id then pp else q
+
+def getPipe (s : State) (p : Nat) : Option Pipe := getP s.pipes p
+
+/-- nni_pipe_send on pipe `p`: remember the message in flight -/
+def setBusy (ps : List Pipe) (p : Nat) (m : GMsg) : List Pipe :=
+  match getP ps p with
+  | some pp => setP ps { pp with busy := some m }
+  | none => ps
+
+/-- push0_pipe_ready without the pollable update -/
+def pipeReadyCore (s : State) (p : Nat) : State × List Out :=
+  match s.wq with
+  | m :: rest =>
+    -- prefer the buffered message; refill the buffer from the first waiting sender
+    match s.aq with
+    | a :: arest =>
+      ({ s with wq := rest ++ [a.msg], wire := s.wire ++ [(p, m)], pipes := setBusy s.pipes p m,
+                aq := arest, accepted := s.accepted ++ [a.msg] },
+        [Out.psend p m.m, Out.done a.aio 0 none false])
+    | [] =>
+      ({ s with wq := rest, wire := s.wire ++ [(p, m)], pipes := setBusy s.pipes p m },
+        [Out.psend p m.m])
+  | [] =>
+    match s.aq with
+    | a :: arest =>
+      ({ s with aq := arest, wire := s.wire ++ [(p, a.msg)], accepted := s.accepted ++ [a.msg],
+                pipes := setBusy s.pipes p a.msg },
+        [Out.psend p a.msg.m, Out.done a.aio 0 none false])
+    | [] => ({ s with pl := s.pl ++ [p] }, [])
 
 /-- push0_pipe_ready -/
 def pipeReady (s : State) (p : Nat) : State × List Out :=
   let blocked := wqFull s && s.pl.isEmpty
-  let (s, outs) :=
-    match s.wq with
-    | m :: rest =>
-      -- prefer the buffered message; refill the buffer from the first waiting sender
-      let s := { s with wq := rest, wire := s.wire ++ [(p, m)] }
-      let s := match getPipe s p with
-        | some pp => setPipe s { pp with busy := some m }
-        | none => s
-      match s.aq with
-      | a :: arest =>
-        ({ s with aq := arest, wq := s.wq ++ [a.msg], accepted := s.accepted ++ [a.msg] },
-          [Out.psend p m.m, Out.done a.aio 0 none false])
-      | [] => (s, [Out.psend p m.m])
-    | [] =>
-      match s.aq with
-      | a :: arest =>
-        let s := { s with aq := arest, wire := s.wire ++ [(p, a.msg)], accepted := s.accepted ++ [a.msg] }
-        let s := match getPipe s p with
-          | some pp => setPipe s { pp with busy := some a.msg }
-          | none => s
-        (s, [Out.psend p a.msg.m, Out.done a.aio 0 none false])
-      | [] => ({ s with pl := s.pl ++ [p] }, [])
-  let s := if blocked && (!wqFull s || !s.pl.isEmpty) then { s with writable := true } else s
-  (s, outs)
+  let r := pipeReadyCore s p
+  (if blocked && (!wqFull r.1 || !r.1.pl.isEmpty) then { r.1 with writable := true } else r.1, r.2)
 
 /-- nni_pipe_close as seen by this protocol: transport close (fails the parked
     transport aios), push0_pipe_close.  The in-flight message, if any, is released by
@@ -96,17 +111,19 @@ def closePipe (s : State) (p : Nat) : State × List Out :=
   | some pp =>
     if pp.closed then (s, [])
     else
-      let s := setPipe s { pp with closed := true, busy := none, armed := false }
-      let s := match pp.busy with
-        | some m => { s with lostOnPipe := s.lostOnPipe ++ [m] }
-        | none => s
-      let s :=
-        if s.pl.contains p then
-          let pl := s.pl.filter (· != p)
-          let s := { s with pl := pl }
-          if pl.isEmpty && wqFull s then { s with writable := false } else s
-        else s
-      (s, [Out.pclosed p])
+      let pl := s.pl.filter (· != p)
+      ({ s with pipes := setP s.pipes { pp with closed := true, busy := none, armed := false },
+                lostOnPipe := s.lostOnPipe ++ pp.busy.toList,
+                pl := pl,
+                writable := if s.pl.contains p && pl.isEmpty && wqFull s then false else s.writable },
+        [Out.pclosed p])
+
+def closeAll (s : State) : List Nat → State × List Out
+  | [] => (s, [])
+  | p :: ps =>
+    let r := closePipe s p
+    let r2 := closeAll r.1 ps
+    (r2.1, r.2 ++ r2.2)
 
 def deadlineOf (now : Nat) : Mode → Option Nat
   | .ms n => some (now + n)
@@ -120,124 +137,152 @@ def failParked (s : State) (a : Nat) (rv : Nat) : State × List Out :=
       [Out.done a rv none true])
   | none => (s, [])
 
+def failEach (s : State) (rv : Nat) : List Nat → State × List Out
+  | [] => (s, [])
+  | a :: as =>
+    let r := failParked s a rv
+    let r2 := failEach r.1 rv as
+    (r2.1, r.2 ++ r2.2)
+
+def isDue (now : Nat) (pk : Parked) : Bool :=
+  match pk.deadline with | some d => d < now | none => false
+
 def expire (s : State) : State × List Out :=
-  let due := s.aq.filter fun pk => match pk.deadline with | some d => d < s.now | none => false
-  due.foldl (fun (acc : State × List Out) pk =>
-    let (s', o) := failParked acc.1 pk.aio Err.etimedout
-    (s', acc.2 ++ o)) (s, [])
+  failEach s Err.etimedout ((s.aq.filter (isDue s.now)).map (·.aio))
 
 def sendBufMax : Nat := Nng.Generated.pushSendBufMax
 
-def step (s : State) (ev : Ev) : State × List Out :=
-  if !s.opened then
-    match ev with
-    | .openSock _ _ => ({ s with opened := true, wqCap := Nng.Generated.pushSendBufInit }, [.rv 0])
-    | .advance ms => ({ s with now := s.now + ms }, [])
-    | _ => (s, [.other "nosock"])
-  else if s.closed then
-    match ev with
-    | .advance ms => ({ s with now := s.now + ms }, [])
-    | _ => (s, [.other "nosock"])
+/-- a send that can neither be handed to a pipe nor buffered fails at once in these modes -/
+def failNow : Mode → Option Nat
+  | .nb => some Err.eagain
+  | .ms 0 => some Err.etimedout
+  | _ => none
+
+def evPipeAdd (s : State) (peer : Nat) : State × List Out :=
+  let id := s.pipes.length
+  if peer != peerPull then
+    -- push0_pipe_start rejects the peer: the pipe is closed before it is ever used
+    ({ s with pipes := s.pipes ++ [{ id := id, closed := true }] }, [.pipe id, .pclosed id])
   else
-  match ev with
-  | .openSock _ _ => (s, [.other "bad-op"])
-  | .pipeAdd peer =>
-    let id := s.pipes.length
-    let s := { s with pipes := s.pipes ++ [{ id := id }] }
-    if peer != peerPull then
-      -- push0_pipe_start rejects the peer: the pipe is closed before it is ever used
-      let s := setPipe s { id := id, closed := true }
-      (s, [.pipe id, .pclosed id])
-    else
-      let s := setPipe s { id := id, armed := true }
-      let (s, o) := pipeReady s id
-      (s, [.pipe id, .parm id] ++ o)
-  | .pipeDrop p =>
-    match getPipe s p with
-    | some pp =>
+    let r := pipeReady { s with pipes := s.pipes ++ [{ id := id, armed := true }] } id
+    (r.1, [.pipe id, .parm id] ++ r.2)
+
+def evPipeDrop (s : State) (p : Nat) : State × List Out :=
+  match getPipe s p with
+  | some pp =>
+    if pp.closed then (s, [.rv (-1)])
+    else let r := closePipe s p; (r.1, [.rv 0] ++ r.2)
+  | none => (s, [.rv (-1)])
+
+def evSendDone (s : State) (p : Nat) (rv : Nat) : State × List Out :=
+  match getPipe s p with
+  | some pp =>
+    match pp.busy with
+    | some _ =>
       if pp.closed then (s, [.rv (-1)])
-      else let (s, o) := closePipe s p; (s, [.rv 0] ++ o)
-    | none => (s, [.rv (-1)])
-  | .sendDone p rv =>
-    match getPipe s p with
-    | some pp =>
-      match pp.busy with
-      | some m =>
-        if pp.closed then (s, [.rv (-1)])
-        else if rv != 0 then
-          -- push0_send_cb: free the message, close the pipe
-          let (s, o) := closePipe s p
-          (s, [.rv 0] ++ o)
-        else
-          let s := setPipe s { pp with busy := none }
-          let _ := m
-          let (s, o) := pipeReady s p
-          (s, [.rv 0] ++ o)
-      | none => (s, [.rv (-1)])
-    | none => (s, [.rv (-1)])
-  | .recvDone p r =>
-    match getPipe s p with
-    | some pp =>
-      if pp.closed || !pp.armed then (s, [.rv (-1)])
+      else if rv != 0 then
+        -- push0_send_cb: free the message, close the pipe
+        let r := closePipe s p
+        (r.1, [.rv 0] ++ r.2)
       else
-        match r with
-        | .ok _ => (s, [.rv 0, .parm p])          -- push0_recv_cb: discard and re-arm
-        | .error _ => let (s, o) := closePipe s p; (s, [.rv 0] ++ o)
+        let r := pipeReady { s with pipes := setP s.pipes { pp with busy := none } } p
+        (r.1, [.rv 0] ++ r.2)
     | none => (s, [.rv (-1)])
-  | .send _ a m mode =>
-    if s.aq.any (·.aio == a) then (s, [.other "aio-busy"]) else   -- harness refuses to reuse a pending aio
-    let gm : GMsg := ⟨s.nsend, m⟩
-    let s := { s with nsend := s.nsend + 1 }
-    match s.pl with
-    | p :: rest =>
-      let s := { s with pl := rest }
-      let s := if rest.isEmpty && wqFull s then { s with writable := false } else s
-      let s := { s with accepted := s.accepted ++ [gm], wire := s.wire ++ [(p, gm)] }
-      let s := match getPipe s p with
-        | some pp => setPipe s { pp with busy := some gm }
-        | none => s
-      (s, [.done a 0 none false, .psend p m])
-    | [] =>
-      if s.wq.length < s.wqCap then
-        let s := { s with wq := s.wq ++ [gm], accepted := s.accepted ++ [gm] }
-        let s := if wqFull s then { s with writable := false } else s
-        (s, [.done a 0 none false])
-      else
-        match mode with
-        | .nb => ({ s with returned := s.returned ++ [gm] }, [.done a Err.eagain none true])
-        | .ms 0 => ({ s with returned := s.returned ++ [gm] }, [.done a Err.etimedout none true])
-        | _ => ({ s with aq := s.aq ++ [⟨a, gm, deadlineOf s.now mode⟩] }, [])
-  | .recv _ a _ =>
-    if s.aq.any (·.aio == a) then (s, [.other "aio-busy"]) else (s, [.done a Err.enotsup none false])
+  | none => (s, [.rv (-1)])
+
+def evRecvDone (s : State) (p : Nat) (r : Except Nat Bytes) : State × List Out :=
+  match getPipe s p with
+  | some pp =>
+    if pp.closed || !pp.armed then (s, [.rv (-1)])
+    else
+      match r with
+      | .ok _ => (s, [.rv 0, .parm p])          -- push0_recv_cb: discard and re-arm
+      | .error _ => let r := closePipe s p; (r.1, [.rv 0] ++ r.2)
+  | none => (s, [.rv (-1)])
+
+/-- push0_sock_send -/
+def evSend (s : State) (a : Nat) (m : WMsg) (mode : Mode) : State × List Out :=
+  if s.aq.any (·.aio == a) then (s, [.other "aio-busy"]) else   -- harness refuses to reuse a pending aio
+  let gm : GMsg := ⟨s.nsend, m⟩
+  match s.pl with
+  | p :: rest =>
+    ({ s with nsend := s.nsend + 1, offered := s.offered ++ [gm], pl := rest,
+              writable := if rest.isEmpty && wqFull s then false else s.writable,
+              accepted := s.accepted ++ [gm], wire := s.wire ++ [(p, gm)],
+              pipes := setBusy s.pipes p gm },
+      [.done a 0 none false, .psend p m])
+  | [] =>
+    if s.wq.length < s.wqCap then
+      ({ s with nsend := s.nsend + 1, offered := s.offered ++ [gm],
+                wq := s.wq ++ [gm], accepted := s.accepted ++ [gm],
+                writable := if full (s.wq ++ [gm]) s.wqCap then false else s.writable },
+        [.done a 0 none false])
+    else
+      match failNow mode with
+      | some rv =>
+        ({ s with nsend := s.nsend + 1, offered := s.offered ++ [gm], returned := s.returned ++ [gm] },
+          [.done a rv none true])
+      | none =>
+        ({ s with nsend := s.nsend + 1, offered := s.offered ++ [gm],
+                  aq := s.aq ++ [⟨a, gm, deadlineOf s.now mode⟩] }, [])
+
+def evRecv (s : State) (a : Nat) : State × List Out :=
+  if s.aq.any (·.aio == a) then (s, [.other "aio-busy"]) else (s, [.done a Err.enotsup none false])
+
+/-- push0_set_send_buf_len -/
+def evSetBuf (s : State) (v : Int) : State × List Out :=
+  if v < 0 || v > sendBufMax then (s, [.rv Err.einval])
+  else
+    let cap := v.toNat
+    let keep := s.wq.take cap
+    ({ s with wqCap := cap, dropped := s.dropped ++ s.wq.drop cap, wq := keep,
+              writable := if !full keep cap then true else if s.pl.isEmpty then false else s.writable,
+              slack := s.slack || (!s.aq.isEmpty && !full keep cap) },
+      [.rv 0])
+
+/-- push0_sock_close fails the parked senders; the core closes every pipe -/
+def evClose (s : State) : State × List Out :=
+  let outs1 := s.aq.map fun pk => Out.done pk.aio Err.eclosed none true
+  let r := closeAll { s with returned := s.returned ++ s.aq.map Parked.msg, aq := [] } (s.pipes.map (·.id))
+  ({ r.1 with closed := true, dropped := r.1.dropped ++ r.1.wq, wq := [] }, outs1 ++ r.2)
+
+def isSendBuf (c : Option Nat) (name ty : String) : Bool :=
+  c.isNone && name == "send-buffer" && ty == "int"
+
+def stepLive (s : State) : Ev → State × List Out
+  | .openSock _ _ => (s, [.other "bad-op"])
+  | .pipeAdd peer => evPipeAdd s peer
+  | .pipeDrop p => evPipeDrop s p
+  | .sendDone p rv => evSendDone s p rv
+  | .recvDone p r => evRecvDone s p r
+  | .send _ a m mode => evSend s a m mode
+  | .recv _ a _ => evRecv s a
   | .cancel a => failParked s a Err.ecanceled
   | .abort a rv => failParked s a rv
   | .advance ms => expire { s with now := s.now + ms }
   | .ctxOpen _ => (s, [.rv Err.enotsup])
   | .ctxClose _ => (s, [.rv (-1)])
-  | .setopt none "send-buffer" "int" v =>
-    if v < 0 || v > sendBufMax then (s, [.rv Err.einval])
-    else
-      let cap := v.toNat
-      let keep := s.wq.take cap
-      let s := { s with wqCap := cap, dropped := s.dropped ++ s.wq.drop cap, wq := keep }
-      let s := if !wqFull s then { s with writable := true }
-               else if s.pl.isEmpty then { s with writable := false } else s
-      (s, [.rv 0])
-  | .setopt _ _ _ _ => (s, [.other "unmodelled-option"])
-  | .getopt none "send-buffer" "int" => (s, [.rv2 0 s.wqCap])
-  | .getopt _ _ _ => (s, [.other "unmodelled-option"])
+  | .setopt c name ty v =>
+    if isSendBuf c name ty then evSetBuf s v else (s, [.other "unmodelled-option"])
+  | .getopt c name ty =>
+    if isSendBuf c name ty then (s, [.rv2 0 s.wqCap]) else (s, [.other "unmodelled-option"])
   | .poll => (s, [.poll none (some s.writable)])
   | .sub _ _ => (s, [.other "bad-op"])
   | .unsub _ _ => (s, [.other "bad-op"])
-  | .close =>
-    -- push0_sock_close fails the parked senders; the core closes every pipe
-    let outs1 := s.aq.map fun pk => Out.done pk.aio Err.eclosed none true
-    let s := { s with returned := s.returned ++ s.aq.map Parked.msg, aq := [] }
-    let (s, outs2) := s.pipes.foldl (fun (acc : State × List Out) (pp : Pipe) =>
-      let (s', o) := closePipe acc.1 pp.id
-      (s', acc.2 ++ o)) (s, [])
-    let s := { s with closed := true, dropped := s.dropped ++ s.wq, wq := [] }
-    (s, outs1 ++ outs2)
+  | .close => evClose s
+
+/-- before `open` and after `close` only the clock moves -/
+def stepIdle (s : State) : Ev → State × List Out
+  | .advance ms => ({ s with now := s.now + ms }, [])
+  | _ => (s, [.other "nosock"])
+
+def step (s : State) (ev : Ev) : State × List Out :=
+  if !s.opened then
+    match ev with
+    | .openSock _ _ => ({ s with opened := true, wqCap := Nng.Generated.pushSendBufInit }, [.rv 0])
+    | ev => stepIdle s ev
+  else if s.closed then stepIdle s ev
+  else stepLive s ev
 
 def run (s : State) : List Ev → State × List (List Out)
   | [] => (s, [])
